@@ -1,6 +1,7 @@
 package engine
 
 import (
+	"go/types"
 	"fmt"
 	"strings"
 
@@ -169,4 +170,40 @@ func (q *PathQuery) inlineCall(st *PathState, call *ssa.Call) []*PathState {
 		return nil
 	}
 	return out
+}
+
+// CallerAgree evaluates a path fact at every call site of the unexported function f (an extracted helper): the fact is
+// known for f's entry when every path to every call site, in every function of f's package, yields the same known
+// value. It is how a guard that stayed in the caller is credited to a store that moved into a helper.
+func CallerAgree(p *Prog, f *ssa.Function, keepLoopFacts bool, pred func(*PathState) (bool, bool)) (bool, bool) {
+	obj, _ := f.Object().(*types.Func)
+	if obj == nil || obj.Exported() || f.Parent() != nil {
+		return false, false
+	}
+	sites := 0
+	var val bool
+	for _, g := range p.RepoFuncs() {
+		if g.Pkg != f.Pkg || g == f {
+			continue
+		}
+		for _, call := range CallsTo(g, obj) {
+			q := &PathQuery{Fn: g, Sink: Is(call), KeepLoopFacts: keepLoopFacts}
+			states, err := q.Run()
+			if err != nil || len(states) == 0 {
+				return false, false
+			}
+			for _, st := range states {
+				v, k := pred(st)
+				if !k {
+					return false, false
+				}
+				if sites > 0 && v != val {
+					return false, false
+				}
+				val = v
+				sites++
+			}
+		}
+	}
+	return val, sites > 0
 }
